@@ -473,6 +473,50 @@ theorem hg_contract_legs (n : Net) (hnr : NoRepeat n) (path : List (Nat × Nat))
   rw [sizeOfLegs_eq_prod]
   exact prod_of_same_keys _ _ _ (inv.cons.nd k inds hN) (keys_nodup_legs n [] _) hkeys
 
+theorem any_not_pair (l : List Nat) (i j : Nat) :
+    (l.any fun k => !([i, j].contains k)) = true ↔ ∃ k, k ≠ i ∧ k ≠ j ∧ k ∈ l := by
+  rw [List.any_eq_true]
+  constructor
+  · rintro ⟨k, hk, hc⟩
+    have hn : ¬ [i, j].contains k = true := by simpa using hc
+    have hn' : k ∉ [i, j] := fun hm => hn (by simpa using hm)
+    simp only [List.mem_cons, List.not_mem_nil, or_false, not_or] at hn'
+    exact ⟨k, hn'.1, hn'.2, hk⟩
+  · rintro ⟨k, h1, h2, hk⟩
+    refine ⟨k, hk, ?_⟩
+    have hn' : k ∉ [i, j] := by simp [h1, h2]
+    have : ¬ [i, j].contains k = true := fun hc => hn' (by simpa using hc)
+    simpa using this
+
+/-- **hg_predicted_inds.** `compute_contracted_inds((i, j))` and `candidate_contraction_size(i, j)`
+    (no cap), read before the contraction, predict exactly the node that `contract(i, j)` then
+    creates: same index set, same size — on any consistent hypergraph. -/
+theorem hg_predicted_inds (h : HG) (i j : Nat) (ii ij : List Ix) (hc : HG.Cons h) (hij : i ≠ j)
+    (hi : AL.get? h.nodes i = some ii) (hj : AL.get? h.nodes j = some ij)
+    (hfresh : AL.has h.nodes h.nextCand = false) :
+    ∃ h' keep, h.contract i j = some (h.nextCand, h') ∧ AL.get? h'.nodes h.nextCand = some keep ∧
+      (∀ e, e ∈ h.computeContractedInds [i, j] ↔ e ∈ keep) ∧
+      h.candidateContractionSize i j none = h'.nodeSize h.nextCand := by
+  obtain ⟨h', keep, hcon, co⟩ := HG.contract_spec h i j ii ij hc hij hi hj hfresh
+  have hk : AL.get? h'.nodes h.nextCand = some keep := by rw [co.nodes]; simp
+  have hmem : ∀ e, e ∈ h.computeContractedInds [i, j] ↔ e ∈ keep := by
+    intro e
+    rw [co.keep e]
+    unfold HG.computeContractedInds HG.getNode
+    rw [HG.mem_dedup, List.mem_filter, Bool.or_eq_true, any_not_pair]
+    simp only [List.flatMap_cons, List.flatMap_nil, List.append_nil, hi, hj, Option.getD_some,
+      List.mem_append, List.contains_iff_mem]
+  refine ⟨h', keep, hcon, hk, hmem, ?_⟩
+  unfold HG.candidateContractionSize HG.nodeSize HG.getNode
+  simp only [hk, Option.getD_some]
+  have hes : ∀ (g : HG) (es : List Ix), g.edgesSize es = (es.map g.size).prod := by
+    intro g es; unfold HG.edgesSize; rw [List.prod_eq_foldl]
+  rw [hes, hes]
+  have hsz : h'.size = h.size := by
+    funext e; unfold HG.size; rw [co.sd]
+  rw [hsz]
+  exact prod_of_same_keys _ _ _ (HG.nodup_dedup _) co.keepNd hmem
+
 /-- no index of input `i` is confined to that tensor and absent from the output -/
 def NoDanglingAt (n : Net) (i : Nat) : Prop := ∀ e ∈ n.term i, Outside n (.leaf i) e
 
